@@ -31,7 +31,7 @@ ASSUMPTIONS = [
     "the __main__ guard is written in its canonical form  if __name__ == '__main__':",
     "PEP 420 namespace packages are not collected (xdoctest documents no support); a directory without __init__.py ends "
     "the walk",
-    "every callable name is defined once per scope (redefinitions have no documented meaning)",
+    "every callable name is defined once per scope (redefinitions have no documented meaning), except a property getter declared again through its own accessor (@x.getter), where the later definition is the property",
 ]
 NSHARDS = {'quick': 16, 'thorough': 16}
 STYLES = ['google', 'freeform', 'auto']
